@@ -225,6 +225,8 @@ type hdr struct {
 	why      string
 }
 
+const decoyAttrs = ` xmlns:d="urn:verif:decoy" d:id="decoy-id" d:version="1.0" d:xmlns="jabber:client" d:to="decoy.example" d:from="decoy@example.org/x" d:lang="tlh" xmlns:id="urn:verif:ids" xmlns:version="1.0" xmlns:to="urn:verif:to"`
+
 func genHeader(t *rapid.T, ws, recv bool) hdr {
 	var h hdr
 	if rapid.IntRange(0, 9).Draw(t, "streamerr") == 0 {
@@ -332,6 +334,12 @@ func genHeader(t *rapid.T, ws, recv bool) hdr {
 	if rapid.IntRange(0, 4).Draw(t, "foreignattr") == 0 {
 		attrs += ` foo="bar" xmlns:x="urn:verif:x" x:y="z"`
 	}
+	if rapid.IntRange(0, 2).Draw(t, "decoyattrs") == 0 {
+		// qualified attributes, and prefix declarations, that merely share the
+		// local name of a header attribute are not that attribute: they neither
+		// make up for a missing one nor override the real one
+		attrs += decoyAttrs
+	}
 	lead := rapid.SampledFrom([]string{"", "", `<?xml version="1.0"?>`, `<?xml version="1.0" encoding="UTF-8"?>` + "\n", " \n"}).Draw(t, "lead")
 	end := ">"
 	if ws || nameKind == 7 && !ws {
@@ -380,6 +388,10 @@ func TestC12HeaderAcceptance(t *testing.T) {
 
 // ---------------------------------------------------------------- (c) restarts and (d) bind, through the public API
 
+// decoysInHeaders makes tcpHeaderV add qualified look-alike attributes (set per
+// case by TestC12Restart).
+var decoysInHeaders bool
+
 func tcpHeader(ns, from, to, id string) string {
 	return tcpHeaderV(ns, from, to, id, "1.0")
 }
@@ -394,6 +406,9 @@ func tcpHeaderV(ns, from, to, id, version string) string {
 	s += ` xmlns:stream="` + wire.StreamNS + `"`
 	if version != "" {
 		s += ` version="` + version + `"`
+	}
+	if decoysInHeaders {
+		s += decoyAttrs
 	}
 	if id != "" {
 		s += ` id="` + esc(id) + `"`
@@ -512,7 +527,9 @@ func TestC12Restart(t *testing.T) {
 		if recv {
 			id2 = ""
 		}
-		desc := fmt.Sprintf("restart recv=%v s2s=%v us=%s them=%s second-header-change=%s second-header-defect=%s", recv, s2s, us, them, change, defect)
+		decoysInHeaders = rapid.IntRange(0, 2).Draw(rt, "decoys") == 0
+		defer func() { decoysInHeaders = false }()
+		desc := fmt.Sprintf("restart recv=%v s2s=%v us=%s them=%s second-header-change=%s second-header-defect=%s qualified-look-alike-attributes=%v", recv, s2s, us, them, change, defect, decoysInHeaders)
 		ev.Case(true, desc, "restart", "restart-"+change, "restart-defect-"+defect)
 		fail := func(format string, args ...any) {
 			rt.Helper()
@@ -784,6 +801,12 @@ func TestC12BindReceiver(t *testing.T) {
 		}
 		var calls []cbArgs
 		feat := xmpp.BindResource()
+		if mode == "default" && rapid.Bool().Draw(rt, "sharedFeatureValue") {
+			// one feature value serving many sessions, as a server builds its
+			// feature list once
+			feat = sharedBind
+			ev.Class("bind-feature-value-reused")
+		}
 		switch mode {
 		case "custom":
 			feat = xmpp.BindCustom(func(j jid.JID, r string) (jid.JID, error) {
@@ -902,6 +925,7 @@ func TestC12BindReceiver(t *testing.T) {
 }
 
 var (
-	seenMu  sync.Mutex
-	seenRes = map[string]bool{}
+	seenMu     sync.Mutex
+	seenRes    = map[string]bool{}
+	sharedBind = xmpp.BindResource()
 )
